@@ -15,7 +15,7 @@ from ..bags import property_readers
 from ..cfg import CFG
 from ..core import AnalysisError, NotConstant, Repo, Report, call_name, calls_in, kwarg, module_const, norm, walk_local
 from ..dataflow import DefUse
-from .util import canon, cguards
+from .util import canon, cguards, cguards_any
 
 CMP = {">": lambda a, b: a > b, ">=": lambda a, b: a >= b, "<": lambda a, b: a < b, "<=": lambda a, b: a <= b,
        "=": lambda a, b: a == b, "==": lambda a, b: a == b, "!=": lambda a, b: a != b, "≠": lambda a, b: a != b}
@@ -103,7 +103,7 @@ def run(repo: Repo, rep: Report, tier: str) -> None:
     okp = len(inplace) >= 2 and all(any("IRDecider" in t and pol for t, pol in cguards(lsw, n)) for n in inplace)
     rep.check(okp, "C03-R2", "a decider-valued enable is retyped in place (node output type and reference type) to the enable signal", "; ".join(clw.text(n.targets[0])[:60] for n in inplace), lsw.loc(inplace[0]) if inplace else lsw.loc())
     proj = [n for n in walk_local(lsw.node) if isinstance(n, ast.Assign) and isinstance(n.value, ast.Call) and call_name(n.value) == "arithmetic" and q in norm(n.value)]
-    okj = bool(proj) and any(t.endswith(f".signal_type != {q}") and pol for t, pol in cguards(lsw, proj[0]))
+    okj = bool(proj) and any(t.endswith(f".signal_type != {q}") and pol for t, pol in cguards_any(lsw, proj[0]))
     rep.check(okj, "C03-R2", "any other signal-valued enable not already on the enable signal is projected onto it", "; ".join(t for t, p in cguards(lsw, proj[0]) if p)[:160] if proj else "projection missing", lsw.loc(proj[0]) if proj else lsw.loc())
     # sibling agreement of the constant-one recognisers
     iaw = repo.func("MemoryBuilder._is_always_write")
